@@ -126,7 +126,8 @@ def parse_tlc(out, allowed_invariants):
     res = {"generated": 0, "distinct": 0, "violated": [], "tool_errors": []}
     m = re.findall(r"(\d+) states generated, (\d+) distinct states found", out)
     if m:
-        res["generated"], res["distinct"] = int(m[-1][0]), int(m[-1][1])
+        # one final line per TLC run; `out` may be the concatenation of several runs (run_tlc_trace)
+        res["generated"], res["distinct"] = sum(int(x[0]) for x in m), sum(int(x[1]) for x in m)
     for line in out.splitlines():
         if line.startswith("Error:"):
             mm = re.match(r"Error: Invariant (\w+) is violated", line)
@@ -140,7 +141,24 @@ def parse_tlc(out, allowed_invariants):
                 res["tool_errors"].append(line)
     if "Model checking completed" not in out and "Finished in" not in out:
         res["tool_errors"].append("TLC did not finish: " + out[-600:])
+    if out.count("TLC2 Version") != out.count("Finished in"):
+        res["tool_errors"].append("a TLC run of %d did not finish" % out.count("TLC2 Version"))
     return res
+
+
+def run_tlc_trace(spec, cfg_text, workdir, tracefile, timeout=3600, **kw):
+    """run_tlc on a trace file of independent records (one initial state each), in pieces of at
+    most ~12 MB: TLC's JSON module holds the whole file as one value. Outputs are concatenated
+    (record ids are global, so the marker lines stay valid); returns (output, total seconds)."""
+    outs, total = [], 0.0
+    parts = chunk_file(tracefile)
+    for part in parts:
+        o, d = run_tlc(spec, cfg_text, workdir, env={"TRACEFILE": part}, timeout=timeout, **kw)
+        outs.append(o)
+        total += d
+        if part != tracefile:
+            os.remove(part)
+    return "\n".join(outs), total
 
 
 def validate_ops(tracefile, laws, onlyf, workdir, timeout=3600):
@@ -149,7 +167,7 @@ def validate_ops(tracefile, laws, onlyf, workdir, timeout=3600):
     invs = [ALL_INV[l] for l in sorted(laws)] + ["HarnessHonest", "Consumed"]
     cfg = "SPECIFICATION TraceSpec\nCONSTANTS\n  Laws = {%s}\n  OnlyF = \"%s\"\nINVARIANTS\n%s\nCHECK_DEADLOCK TRUE\n" % (
         ",".join('"%s"' % l for l in sorted(laws)), onlyf, "\n".join("  " + i for i in invs))
-    out, dt = run_tlc("TraceOps.tla", cfg, workdir, env={"TRACEFILE": tracefile}, timeout=timeout)
+    out, dt = run_tlc_trace("TraceOps.tla", cfg, workdir, tracefile, timeout=timeout)
     res = parse_tlc(out, set(ALL_INV.values()))
     fails = set()
     for m in re.finditer(r'<<"LAWFAIL", "(\w+)", (\d+), (\d+)>>', out):
@@ -165,6 +183,27 @@ def validate_ops(tracefile, laws, onlyf, workdir, timeout=3600):
     res["lawfails"] = fails
     res["seconds"] = dt
     return res
+
+
+def chunk_file(path, max_bytes=int(os.environ.get("VERIF_CHUNK_BYTES", 12 << 20))):
+    """Split an ndjson file at line boundaries into pieces of at most max_bytes (TLC's JSON module
+    materialises the whole file as one value per worker; ~12 MB is comfortable). Returns the paths."""
+    if os.path.getsize(path) <= max_bytes:
+        return [path]
+    parts, cur, size = [], None, 0
+    with open(path) as f:
+        for line in f:
+            if cur is None or size + len(line) > max_bytes:
+                if cur:
+                    cur.close()
+                parts.append("%s.part%d" % (path, len(parts)))
+                cur = open(parts[-1], "w")
+                size = 0
+            cur.write(line)
+            size += len(line)
+    if cur:
+        cur.close()
+    return parts
 
 
 def load_sessions(path):
@@ -277,6 +316,21 @@ def abstract_laws(workdir, buggy=False, maxcalls=2):
            "  C07_RepresentationInvariant\n  C09_FarPartLocal\n  C11_ChainedAlgebra\n  C11_Examples\n  C12_Deterministic\nCHECK_DEADLOCK FALSE\n") % (maxcalls, "TRUE" if buggy else "FALSE")
     out, dt = run_tlc("BoolOpsAbs.tla", cfg, workdir, timeout=3000)
     return parse_tlc(out, set()), dt
+
+
+def prove_laws(workdir, timeout=900):
+    """TLAPS: the relational laws are consequences of the contract for ARBITRARY regions
+    (spec/BoolOpsLaws.tla). Returns (obligations proved, seconds); anything unproved is a tool error."""
+    import shutil
+    os.makedirs(workdir, exist_ok=True)
+    shutil.copy(os.path.join(SPEC, "BoolOpsLaws.tla"), os.path.join(workdir, "BoolOpsLaws.tla"))
+    t0 = time.time()
+    r = sh("timeout %d tlapm --threads 8 --cleanfp BoolOpsLaws.tla 2>&1" % timeout, cwd=workdir)
+    dt = time.time() - t0
+    m = re.search(r"All (\d+) obligations? proved", r.stdout or "")
+    if not m:
+        raise ToolError("tlapm did not prove BoolOpsLaws.tla: %s" % (r.stdout or "")[-800:])
+    return int(m.group(1)), dt
 
 
 def fixtures_file(path):
